@@ -120,7 +120,10 @@ class Keccak(object):
                 Pb = Pb[r:]
             Pi = P.read(br)
         # pad10*1 (with little-endian convention) :
-        Pb = Pb//Bits(1)//Bits(0,size=r-len(Pb)-2)//Bits(1)
+        Pb = Pb//Bits(1)//Bits(0,size=(r-len(Pb)-2)%r)//Bits(1)
+        if len(Pb)>r:
+            yield Pb[:r]
+            Pb = Pb[r:]
         yield Pb
 
     # Duplex construction (see "Cryptographic Sponge Functions", http://sponge.noekeon.org)
